@@ -17,7 +17,7 @@ from fractions import Fraction
 
 from vlib import INT_TYPES, Driver, cxx, kv, pmap, run, ty_hi, ty_lo, SAN_CLANG, SAN_GCC
 from intconv import _cheap
-from mixedops import (CTYPE, UBSAN_ENV, common_ty, in_range, promote, rat_gcd, run_harness, clip, trunc_frac, kmax)
+from mixedops import (RetryDriver, CTYPE, UBSAN_ENV, common_ty, in_range, promote, rat_gcd, run_harness, clip, trunc_frac, kmax)
 
 CMP = ["eq", "ne", "lt", "le", "gt", "ge"]
 
@@ -241,11 +241,19 @@ template <class R, class N, class U1, class U2> struct EInst<R, N, U1, U2, true>
         snprintf(b, n, "ret_is_n=%d", int(std::is_same<T, N>::value));
     }
 };
-template <class R1, class R2, class U1, class U2, bool Ok> struct OInst {
+template <class R1, class R2, class U1, class U2, bool Ok3> struct OCmp3 {
+    template <class P1, class P2> static i128 go(const P1&, const P2&) { return -98; }
+};
+#if __cplusplus >= 202002L
+template <class R1, class R2, class U1, class U2> struct OCmp3<R1, R2, U1, U2, true> {
+    template <class P1, class P2> static i128 go(const P1& p1, const P2& p2) { const auto s = (p1 <=> p2); return s < 0 ? 0 : (s == 0 ? 1 : 2); }
+};
+#endif
+template <class R1, class R2, class U1, class U2, bool Ok, bool Ok3> struct OInst {
     static i128 op(int, i128, i128) { return 0; }
     static void info(char* b, size_t n) { snprintf(b, n, "-"); }
 };
-template <class R1, class R2, class U1, class U2> struct OInst<R1, R2, U1, U2, true> {
+template <class R1, class R2, class U1, class U2, bool Ok3> struct OInst<R1, R2, U1, U2, true, Ok3> {
     using CP = au::CommonPointUnitT<U1, U2>;
     static i128 op(int w, i128 a, i128 b) {
         const auto p1 = au::make_quantity_point<U1>(static_cast<R1>(a));
@@ -260,9 +268,7 @@ template <class R1, class R2, class U1, class U2> struct OInst<R1, R2, U1, U2, t
             case 16: return static_cast<i128>((p1 - p2).in(CP{}));
             case 17: return p2 > p1;
             case 18: return p2 == p1;
-#if __cplusplus >= 202002L
-            case 19: { const auto s = (p1 <=> p2); return s < 0 ? 0 : (s == 0 ? 1 : 2); }
-#endif
+            case 19: return OCmp3<R1, R2, U1, U2, Ok3>::go(p1, p2);
         }
         return -99;
     }
@@ -275,7 +281,7 @@ template <class R1, class R2, class U1, class U2> struct OInst<R1, R2, U1, U2, t
     }
 };
 #define EENTRY(ID, R, N, U1, U2, OK) { ID, 0, OK, &EInst<R, N, U1, U2, OK>::op, &EInst<R, N, U1, U2, OK>::info }
-#define OENTRY(ID, R1, R2, U1, U2, OK) { ID, 1, OK, &OInst<R1, R2, U1, U2, OK>::op, &OInst<R1, R2, U1, U2, OK>::info }
+#define OENTRY(ID, R1, R2, U1, U2, OK, OK3) { ID, 1, OK, &OInst<R1, R2, U1, U2, OK, OK3>::op, &OInst<R1, R2, U1, U2, OK, OK3>::info }
 '''
 
 HARNESS_MAIN = r'''
@@ -375,8 +381,11 @@ def write_table(path, name, ch, gates):
         for ins in ch:
             n1, n2 = uname(ins["u1"], names), uname(ins["u2"], names)
             ok = "true" if gates[ins["id"]] else "false"
-            mac = "EENTRY" if ins["kind"] == "E" else "OENTRY"
-            body.append(f"  {mac}({ins['id']}, {CTYPE[ins['r1']]}, {CTYPE[ins['r2']]}, {n1}, {n2}, {ok}),\n")
+            if ins["kind"] == "E":
+                body.append(f"  EENTRY({ins['id']}, {CTYPE[ins['r1']]}, {CTYPE[ins['r2']]}, {n1}, {n2}, {ok}),\n")
+            else:
+                ok3 = "true" if gates.get(("cmp3", ins["id"])) else "false"
+                body.append(f"  OENTRY({ins['id']}, {CTYPE[ins['r1']]}, {CTYPE[ins['r2']]}, {n1}, {n2}, {ok}, {ok3}),\n")
         for k, nm in names.items():
             sn, sd, oc, on, od = k.split()
             f.write(f"PUNIT({nm}, {sn}ull, {sd}ull, {oc}, {on}ull, {od}ull)\n")
@@ -534,9 +543,10 @@ def o_values(rng, ins, count):
 
 def explore(prop, tier, seed, rng, wd):
     t0 = time.time()
-    drv = Driver()
+    drv = RetryDriver()
     insts = gen_instances(rng, tier)
     violations = []
+    pending = []
     # model gates
     greq = []
     for i in insts:
@@ -546,6 +556,10 @@ def explore(prop, tier, seed, rng, wd):
             greq.append(f"c09op eq {i['r1']} {i['r2']} {ukey(i['u1'])} {ukey(i['u2'])} 0 0")
     gans = [kv(a) for a in drv.ask(greq)]
     gates = {i["id"]: a.get("compiles") == "1" for i, a in zip(insts, gans)}
+    oi = [i for i in insts if i["kind"] == "O"]
+    g3 = drv.ask([f"c09op cmp3 {i['r1']} {i['r2']} {ukey(i['u1'])} {ukey(i['u2'])} 0 0" for i in oi])
+    for i, a in zip(oi, g3):
+        gates[("cmp3", i["id"])] = gates[i["id"]] and kv(a).get("compiles") == "1"
     files = write_harness(wd, insts, gates)
     configs = [("g++", "c++14", "g14"), (("clang++-14", "c++20", "c20") if seed % 2 == 0 else ("g++", "c++17", "g17"))]
     if tier == "thorough":
@@ -553,8 +567,9 @@ def explore(prop, tier, seed, rng, wd):
                    ("clang++-14", "c++20", "c20")]
     by_id = {i["id"]: i for i in insts}
     stats = {"instances": len(insts), "E_instances": sum(1 for i in insts if i["kind"] == "E"),
-             "O_instances": sum(1 for i in insts if i["kind"] == "O"), "gate_ok": sum(1 for v in gates.values() if v),
-             "gate_rejected": sum(1 for v in gates.values() if not v), "configs": [], "sweeps": 0, "sweep_values": 0,
+             "O_instances": sum(1 for i in insts if i["kind"] == "O"), "gate_ok": sum(1 for k, v in gates.items() if v and not isinstance(k, tuple)),
+             "gate_rejected": sum(1 for k, v in gates.items() if not v and not isinstance(k, tuple)),
+             "cmp3_gate_ok": sum(1 for k, v in gates.items() if v and isinstance(k, tuple)), "pending_finding_cases": 0, "configs": [], "sweeps": 0, "sweep_values": 0,
              "sweep_in_scope": 0, "points": 0, "points_in_scope": 0, "skipped_out_of_scope": 0, "neg_probes": 0,
              "forbidden_probes": 0, "allowed_probes": 0, "dropped_instances": 0, "model_ub_cases": 0, "rep_pairs": {}}
     for i in insts:
@@ -604,7 +619,7 @@ def explore(prop, tier, seed, rng, wd):
                         meta.append(("PE", i["id"], w, v))
             else:
                 for (v1, v2) in ovals[i["id"]]:
-                    for w in range(10, 20 if cpp20 else 19):
+                    for w in range(10, 20 if (cpp20 and gates.get(("cmp3", i["id"]))) else 19):
                         lines.append(f"P {i['id']} {w} {v1} {v2}")
                         meta.append(("PO", i["id"], w, v1, v2))
         answers, errs = run_harness(exe, lines)
@@ -617,9 +632,9 @@ def explore(prop, tier, seed, rng, wd):
                 i = by_id[m[1]]
                 midx[k] = len(mreq)
                 mreq.append(f"c09in {i['r1']} {i['r2']} {ukey(i['u1'])} {ukey(i['u2'])} {m[3]}")
-            elif m[0] == "PO" and m[2] in (10, 11, 12, 13, 14, 15, 16):
+            elif m[0] == "PO" and m[2] in (10, 11, 12, 13, 14, 15, 16, 19):
                 i = by_id[m[1]]
-                opn = {10: "eq", 11: "ne", 12: "lt", 13: "le", 14: "gt", 15: "ge", 16: "sub"}[m[2]]
+                opn = {10: "eq", 11: "ne", 12: "lt", 13: "le", 14: "gt", 15: "ge", 16: "sub", 19: "cmp3"}[m[2]]
                 midx[k] = len(mreq)
                 mreq.append(f"c09op {opn} {i['r1']} {i['r2']} {ukey(i['u1'])} {ukey(i['u2'])} {m[3]} {m[4]}")
             elif m[0] == "I" and by_id[m[1]]["kind"] == "O":
@@ -648,7 +663,7 @@ def explore(prop, tier, seed, rng, wd):
                     if (mm["k1"], mm["k2"]) != (r["k1"] + "/1", r["k2"] + "/1"):
                         violations.append({"what": "model and library disagree on the common point unit", "class": "corr-cpu", "no_input": True,
                                            "broken": "correspondence: Point.commonPointUnit", "rec": dict(base, kind="corr", impl=a, model=mans[midx[k]])})
-                    want_rep = promote(common_ty(ins["r1"], ins["r2"]))
+                    want_rep = common_ty(ins["r1"], ins["r2"])      # Diff = Quantity<Unit, Rep>: NOT promoted
                     if r["diffrep"] != f"{INT_TYPES[want_rep][1]},{int(INT_TYPES[want_rep][2])}":
                         violations.append({"what": f"rep of point - point is {r['diffrep']}, expected {want_rep}", "class": "oracle-diffrep",
                                            "rec": dict(base, kind="oracle", observable="diffrep")})
@@ -705,14 +720,14 @@ def explore(prop, tier, seed, rng, wd):
                 p1 = v1 * scale(ins["u1"]) + origin(ins["u1"])
                 p2 = v2 * scale(ins["u2"]) + origin(ins["u2"])
                 stats["points"] += 1
-                if w in (10, 11, 12, 13, 14, 15, 16):
+                if w in (10, 11, 12, 13, 14, 15, 16, 19):
                     mm = kv(mans[midx[k]])
                     if mm["val"] == "ub":
                         stats["model_ub_cases"] += 1
                     elif mm["val"] != r["val"] and (scope or mm["wrapped"] == "0"):
                         violations.append({"what": f"model and implementation differ for point op {w} at ({v1}, {v2})", "class": "corr-pointop", "no_input": True,
                                            "broken": "correspondence: c09op", "rec": dict(base, kind="corr", op=w, v1=v1, v2=v2, model=mans[midx[k]], impl=a)})
-                    if scope and (mm["wrapped"] != "0" or mm["narrowed"] != "0" or mm["val"] == "ub") and w != 16:
+                    if scope and (mm["wrapped"] != "0" or mm["narrowed"] != "0" or mm["val"] == "ub") and w not in (16, 19):
                         violations.append({"what": "oracle scope disagrees with the model's flags (point op)", "class": "corr-scope-o", "no_input": True,
                                            "broken": "correspondence: scope of C09_order", "rec": dict(base, kind="corr", op=w, v1=v1, v2=v2, model=mans[midx[k]])})
                 if not scope:
@@ -721,7 +736,7 @@ def explore(prop, tier, seed, rng, wd):
                 want = {10: p1 == p2, 11: p1 != p2, 12: p1 < p2, 13: p1 <= p2, 14: p1 > p2, 15: p1 >= p2, 17: p1 < p2, 18: p1 == p2}.get(w)
                 if w == 16:
                     d = (p1 - p2) / cpus[ins["id"]]["scale"]
-                    if d.denominator != 1 or not in_range(promote(common_ty(ins["r1"], ins["r2"])), d.numerator):
+                    if d.denominator != 1 or not in_range(common_ty(ins["r1"], ins["r2"]), d.numerator):
                         stats["skipped_out_of_scope"] += 1
                         continue
                     want = d.numerator
@@ -733,7 +748,16 @@ def explore(prop, tier, seed, rng, wd):
                 distinct.add(("O", ins["id"]))
                 if len(samples) < 12 and w in (12, 16) and abs(v1) > 2:
                     samples.append({"request": lines[k], "harness": a, "oracle_want": want})
-                if r["val"] == "trap" or int(r["val"]) != want or r["ub"] != "0":
+                own_scope = True
+                if w == 19:
+                    cpu = cpus[ins["id"]]
+                    own_scope = (steps_ok(implicit_steps(ins["r1"], ins["u1"], cpu, v1)[0]) and
+                                 steps_ok(implicit_steps(ins["r2"], ins["u2"], cpu, v2)[0]))
+                if (r["val"] == "trap" or int(r["val"]) != want or r["ub"] != "0") and w == 19 and not own_scope and ins["r1"] != ins["r2"]:
+                    pending.append({"what": "QuantityPoint <=> converts each operand in its own rep (finding F11, point flavour)",
+                                    "class": f"oracle-pointop-19-{ins['r1']}-{ins['r2']}",
+                                    "rec": dict(base, kind="oracle", op=19, v1=v1, v2=v2, got=r["val"], want=want, fits_common=True, fits_own=False)})
+                elif r["val"] == "trap" or int(r["val"]) != want or r["ub"] != "0":
                     violations.append({"what": f"point op {w} on ({v1} [{ukey(ins['u1'])}] {ins['r1']}, {v2} [{ukey(ins['u2'])}] {ins['r2']}) returns {r['val']} "
                                                f"(sanitizer reports {r['ub']}), exact answer by absolute position {want}",
                                        "class": f"oracle-pointop-{w}-{ins['r1']}-{ins['r2']}", "rec": dict(base, kind="oracle", op=w, v1=v1, v2=v2, got=r["val"], want=want)})
@@ -783,7 +807,9 @@ def explore(prop, tier, seed, rng, wd):
                 "compile probes on two compilers. distinct_nontrivial = instances with an in-scope case executed",
         "samples": samples, "exhaustive": False, "distribution": stats, "explore_s": round(time.time() - t0, 2),
     }
-    return coverage, violations
+    stats["pending_finding_cases"] = len(pending)
+    coverage["pending_examples"] = [p["rec"] for p in pending[:4]]
+    return coverage, violations, pending
 
 
 def replay(prop, rec):
@@ -807,7 +833,7 @@ def replay(prop, rec):
         print("replay: record has no (instance, value); it names:", rec.get("what"), "/", rec.get("broken"))
         return 1
     wd = workdir(prop + "_replay")
-    drv = Driver()
+    drv = RetryDriver()
     f1, f2 = [int(x) for x in r["u1"].split()], [int(x) for x in r["u2"].split()]
     ins = {"id": 0, "kind": r["kind_inst"], "r1": r["r1"], "r2": r["r2"], "u1": U(*f1), "u2": U(*f2)}
     files = write_harness(wd, [ins], {0: True}, nchunks=1)
